@@ -56,6 +56,11 @@ def check(ctx):
             m = amodel.get(cid)
             alias["by_kind"][kind + ":" + cls] = alias["by_kind"].get(kind + ":" + cls, 0) + 1
             impl_ok = cls == "ok"
+            if cls == "hang":
+                ctx.violations.append({"kind": "the generator does not terminate on a document the loader accepted", "components": kind,
+                                       "entries": bytes.fromhex(enc).decode(), "model": m, "spec": bytes.fromhex(doc).decode("utf-8", "replace"),
+                                       "how": "write the spec to a file and run goag on it: no return within 30 s"})
+                continue
             if cls == "panic":
                 continue  # reported by the fault enumeration below as well; counted here
             if m is None:
